@@ -5,6 +5,7 @@ import json
 import fw
 from fw import gN, gZ, gnat, gbool, glist, gopt, gapp, gpair
 import c05terms as T
+import c05ops as O
 from c05terms import WalkError
 
 
@@ -45,6 +46,18 @@ class C05(fw.Prop):
             {"kind": "ty", "t": ["Ext", "Tbad", [["T", ["Qubit"]]]]},
             {"kind": "sugar", "s": ["UnitSum", 2]},
             {"kind": "sugar", "s": ["Option", [["Qubit"]]]},
+            # D8: FuncDefn.deserialize dropped the type parameters of a polymorphic function
+            {"kind": "op", "o": ["FuncDefn", "f", [["Var", 0, "A"]], [["Type", "A"]], [["Var", 0, "A"]]]},
+            # D9: DataflowBlock.deserialize dropped extension_delta
+            {"kind": "op", "o": ["DataflowBlock", [], ["UnitSum", 1], [], ["a.b"]]},
+            # D10: ExtensionOp.deserialize dropped the description
+            {"kind": "op", "o": ["Custom", "op", [[], [], []], "does things", "my.ext", []]},
+            # D17: ExtOp.to_custom_op dropped the definition's description
+            {"kind": "op", "o": ["ExtOp", "OpMono", None, []]},
+            {"kind": "op", "o": ["Tag", 0, ["UnitSum", 2]]},
+            {"kind": "op", "o": ["Const", ["VFunc", 3]]},
+            {"kind": "val", "v": ["VList", [["VInt", 3, 5]], ["Int", 5]]},
+            {"kind": "valsugar", "s": ["VTrue"]},
         ]
 
     def generate(self, rng, tier, ctx):
@@ -64,6 +77,22 @@ class C05(fw.Prop):
             cases.append({"kind": "sugar", "s": s})
         for _ in range(120 * k):
             cases.append({"kind": "sty", "j": T.gen_jty(rng, rng.choice([1, 2, 3]))})
+        for _ in range(150 * k):
+            cases.append({"kind": "val", "v": O.gen_val(rng, rng.choice([1, 2, 3]))})
+        for _ in range(50 * k):
+            r = rng.random()
+            vs = [O.gen_val(rng, 1) for _ in range(rng.choice([0, 1, 2]))]
+            s = (["VUnitSum", rng.choice([0, 1]), rng.choice([2, 3])] if r < 0.15 else rng.choice([["VTrue"], ["VFalse"], ["VUnit"]]) if r < 0.3 else
+                 ["VSome", vs] if r < 0.45 else ["VNone", T.gen_row(rng, 1)] if r < 0.55 else ["VLeft", vs, T.gen_row(rng, 1)] if r < 0.7 else
+                 ["VRight", T.gen_row(rng, 1), vs] if r < 0.85 else ["VTuple", vs])
+            cases.append({"kind": "valsugar", "s": s})
+        for kind in O.OP_KINDS:
+            for _ in range(12 * k):
+                cases.append({"kind": "op", "o": O.gen_op(rng, kind, rng.choice([1, 2]))})
+        for _ in range(30 * k):
+            cases.append({"kind": "tagsugar", "s": O.gen_tagsugar(rng)})
+        for _ in range(150 * k):
+            cases.append({"kind": "sop", "j": O.gen_jop(rng)})
         return cases
 
     # ------------------------------------------------------------------ observation
@@ -116,9 +145,121 @@ class C05(fw.Prop):
             s = e["stys"].Type.model_validate(case["j"])
             d = s.deserialize()
             return {"s": T.walk_sty(s), "deser": T.lit_ty_obj(d), "reser": T.walk_sty(d._to_serial_root())}
+        if k == "val":
+            tab = O.Tab()
+            v = O.build_val(case["v"])
+            o = {"v": O.lit_val_obj(v, tab), "b1": obound(lambda: v.type_().type_bound())}
+            r = guard(lambda: v._to_serial_root())
+            if r[0] == "raised":
+                return {**o, "tab": tab.lit(), "raised": r[1]}
+            s = r[1]
+            d = T.via_json(s).deserialize()
+            o.update(raised=None, ser=O.walk_svalue(s), deser=O.lit_val_obj(d, tab), reser=O.walk_svalue(d._to_serial_root()),
+                     ty1=T.walk_sty(v.type_()._to_serial_root()), ty2=T.walk_sty(d.type_()._to_serial_root()),
+                     b2=obound(lambda: d.type_().type_bound()), json_ok=T.json_identity(s), tab=tab.lit())
+            return o
+        if k == "valsugar":
+            val, tys = e["val"], e["tys"]
+            s = case["s"]
+            tab = O.Tab()
+            obj = O.build_val(s)
+            vals = lambda l: [O.build_val(x) for x in l]
+            lv = lambda l: glist(O.lit_val_obj(x, tab) for x in l)
+            t = s[0]
+            if t in ("VUnitSum", "VTrue", "VFalse", "VUnit"):
+                tag, n = {"VTrue": (1, 2), "VFalse": (0, 2), "VUnit": (0, 1)}.get(t, (s[1] if t == "VUnitSum" else 0, s[2] if t == "VUnitSum" else 0))
+                gen = val.Sum(tag, tys.Sum([[] for _ in range(n)]), [])
+                lit = gapp("VgUnitSum", gN(tag), gnat(n))
+            elif t == "VSome":
+                vs = vals(s[1])
+                gen = val.Sum(1, tys.Sum([[], [x.type_() for x in vs]]), vs)
+                lit = gapp("VgSome", lv(vs))
+            elif t == "VNone":
+                gen = val.Sum(0, tys.Sum([[], T.build_row(s[1])]), [])
+                lit = gapp("VgNone", T.lit_row_obj(T.build_row(s[1])))
+            elif t == "VLeft":
+                vs = vals(s[1])
+                gen = val.Sum(0, tys.Sum([[x.type_() for x in vs], T.build_row(s[2])]), vs)
+                lit = gapp("VgLeft", lv(vs), T.lit_row_obj(T.build_row(s[2])))
+            elif t == "VRight":
+                vs = vals(s[2])
+                gen = val.Sum(1, tys.Sum([T.build_row(s[1]), [x.type_() for x in vs]]), vs)
+                lit = gapp("VgRight", T.lit_row_obj(T.build_row(s[1])), lv(vs))
+            else:
+                vs = vals(s[1])
+                gen = val.Sum(0, tys.Sum([[x.type_() for x in vs]]), vs)
+                lit = gapp("VgTuple", lv(vs))
+            py_eq = bool(obj == gen and gen == obj and not (obj != gen) and obj.type_() == gen.type_()
+                         and obj.type_().type_bound() == gen.type_().type_bound() and isinstance(obj, val.Sum))
+            return {"s": lit, "tab": tab.lit(), "py_eq": py_eq, "ser_s": O.walk_svalue(obj._to_serial_root()),
+                    "ser_g": O.walk_svalue(gen._to_serial_root()), "ty_s": T.walk_sty(obj.type_()._to_serial_root()),
+                    "ty_g": T.walk_sty(gen.type_()._to_serial_root()), "b_s": obound(lambda: obj.type_().type_bound()),
+                    "b_g": obound(lambda: gen.type_().type_bound())}
+        if k == "op":
+            from hugr.hugr.node_port import Node
+            tab = O.Tab()
+            r0 = guard(lambda: O.build_op(case["o"]))
+            if r0[0] == "raised":
+                return {"unbuildable": r0[1]}
+            op = r0[1]
+            o = {"o": O.lit_op_obj(op, tab), "f1": O.facts_lit(op), "k1": O.kinds_lit(op)}
+            r = guard(lambda: op._to_serial(Node(7)))
+            if r[0] == "raised":
+                return {**o, "tab": tab.lit(), "raised": r[1]}
+            s = e["sops"].OpType(root=r[1])
+            d = T.via_json(s).root.deserialize()
+            o.update(raised=None, ser=O.walk_sop(s), deser=O.lit_op_obj(d, tab), reser=O.walk_sop(d._to_serial(Node(7))),
+                     f2=O.facts_lit(d), k2=O.kinds_lit(d), json_ok=T.json_identity(s), tab=tab.lit())
+            return o
+        if k == "tagsugar":
+            from hugr.hugr.node_port import Node
+            ops = e["ops"]
+            sg, gen = O.build_tagsugar(case["s"])
+            s = case["s"]
+            R = lambda l: T.lit_row_obj(T.build_row(l))
+            lit = gapp("TgSome", R(s[1])) if s[0] == "Some" else gapp("Tg" + s[0], R(s[1]), R(s[2]))
+            return {"s": lit, "ser_s": O.walk_sop(sg._to_serial(Node(7))), "ser_g": O.walk_sop(gen._to_serial(Node(7))),
+                    "f_s": O.facts_lit(sg), "f_g": O.facts_lit(gen),
+                    "is_tag": isinstance(sg, ops.Tag) and O.kinds_lit(sg) == O.kinds_lit(gen)}
+        if k == "sop":
+            from hugr.hugr.node_port import Node
+            tab = O.Tab()
+            s = e["sops"].OpType.model_validate(case["j"])
+            d = s.root.deserialize()
+            return {"s": O.walk_sop(s), "deser": O.lit_op_obj(d, tab), "reser": O.walk_sop(d._to_serial(Node(s.root.parent)))}
         raise AssertionError(k)
 
     def literal(self, case, o, ctx):
+        k = case["kind"]
+        if k in ("ty", "arg", "param", "sugar", "sty"):
+            return gapp("KT", self.literal_t(case, o, ctx))
+        return gapp("KV", self.literal_v(case, o, ctx))
+
+    def literal_v(self, case, o, ctx):
+        k = case["kind"]
+        F0 = "{| f_outer := None; f_inner := None; f_num_out := None; f_static := None |}"
+        if k == "val":
+            if o["raised"]:
+                return gapp("CVal", o["tab"], o["v"], "true", "(SVTuple [])", "(VTuple [])", "(SVTuple [])", "SQubit", "SQubit",
+                            o["b1"], "None", "true")
+            return gapp("CVal", o["tab"], o["v"], "false", o["ser"], o["deser"], o["reser"], o["ty1"], o["ty2"], o["b1"], o["b2"],
+                        gbool(o["json_ok"]))
+        if k == "valsugar":
+            return gapp("CValSugar", o["tab"], o["s"], gbool(o["py_eq"]), o["ser_s"], o["ser_g"], o["ty_s"], o["ty_g"], o["b_s"], o["b_g"])
+        if k == "op":
+            if "unbuildable" in o:                      # the constructor refused the arguments: nothing to encode
+                return gapp("CSOp", "(SModule 0)", "OModule", "(SModule 0)")
+            if o["raised"]:
+                return gapp("COp", o["tab"], o["o"], "true", "(SModule 0)", "OModule", "(SModule 0)", F0, F0, "[]", "[]", "true")
+            return gapp("COp", o["tab"], o["o"], "false", o["ser"], o["deser"], o["reser"], o["f1"], o["f2"], o["k1"], o["k2"],
+                        gbool(o["json_ok"]))
+        if k == "tagsugar":
+            return gapp("CTagSugar", o["s"], o["ser_s"], o["ser_g"], o["f_s"], o["f_g"], gbool(o["is_tag"]))
+        if k == "sop":
+            return gapp("CSOp", o["s"], o["deser"], o["reser"])
+        raise AssertionError(k)
+
+    def literal_t(self, case, o, ctx):
         k = case["kind"]
         if k == "ty":
             if o["raised"]:
@@ -157,7 +298,8 @@ class C05(fw.Prop):
 
     def shrink(self, case):
         k = case["kind"]
-        key = {"ty": "t", "arg": "a", "param": "p", "sugar": "s", "sty": "j"}.get(k)
+        key = {"ty": "t", "arg": "a", "param": "p", "sugar": "s", "sty": "j", "val": "v", "valsugar": "s", "op": "o",
+               "tagsugar": "s", "sop": "j"}.get(k)
         if key is None:
             return
         for sub in shrink_term(case[key]):
